@@ -43,6 +43,8 @@ def obligations(tier):
         for k in ((0, 1, 3) if q else (0, 1, 2, 3, 4, 6)):
             obs.append(smt(f"ttml_offset_{met}_k{k}", "smt.C01_fp", "dfxp_offset", args=dict(metric=met, k=k, pmax=10**6 - 1 if k <= 3 else 10**9),
                            timeout=600, engine="E2 fplia (AST -> QF_LIA, z3)"))
+    obs.append(smt("timestamp_grammars", "smt.C01_re", "timestamp_grammars", args=dict(maxlen=24 if q else 40), timeout=600,
+                   engine="E3 re2smt (compiled regexes -> z3 regex terms, language inclusion)"))
     obs.append(smt("ttml_clock_frames", "smt.C01_fp", "dfxp_clock_frames", args=dict(hmax=999), timeout=600,
                    engine="E2 fplia (AST -> QF_LIA, z3)"))
     return obs
